@@ -25,6 +25,7 @@ func singleVersionConf(sd *schemaDef, id string) *histConf {
 type histOpts struct {
 	plainConfigs bool // applied configurations are plain (C01-C03, C07 domain)
 	degenerate   bool // updates may bring nulls, empties and duplicates
+	noDups       bool // ... but no duplicate members (multi-version histories, see DESIGN.md 6)
 }
 
 // typed value of version ver from unstructured data (nil if invalid)
@@ -108,6 +109,10 @@ func genConfig(e *emitter, c *histConf, ver string, st *hstate, prev interface{}
 			if v == nil {
 				continue
 			}
+		} else if e.rng.Intn(10) == 0 {
+			// a configuration that names containers but no field: only empty lists and
+			// the maps leading to them
+			v = hollow(v)
 		}
 		if tv := c.typedAt(ver, v, false); tv != nil {
 			return v, tv
@@ -141,6 +146,24 @@ func thin(e *emitter, v interface{}) interface{} {
 			out = append(out, x)
 		}
 		return out
+	}
+	return v
+}
+
+// keep only the containers of an object: lists become empty, scalars disappear
+func hollow(v interface{}) interface{} {
+	switch t := v.(type) {
+	case M:
+		out := M{}
+		for k, x := range t {
+			switch x.(type) {
+			case M, L:
+				out[k] = hollow(x)
+			}
+		}
+		return out
+	case L:
+		return L{}
 	}
 	return v
 }
@@ -179,7 +202,7 @@ func makePlain(v interface{}) interface{} {
 func genUpdateObject(e *emitter, c *histConf, ver string, st *hstate, opts histOpts) (interface{}, *typed.TypedValue) {
 	vd := c.version(ver)
 	sc := &vd.sd.parser.Schema
-	mode := genMode{degenerate: opts.degenerate && e.rng.Intn(2) == 0, dups: opts.degenerate && e.rng.Intn(3) == 0}
+	mode := genMode{degenerate: opts.degenerate && e.rng.Intn(2) == 0, dups: opts.degenerate && !opts.noDups && e.rng.Intn(3) == 0}
 	for try := 0; try < 20; try++ {
 		var v interface{}
 		live, ok := st.liveAt(c, ver)
@@ -217,17 +240,25 @@ func emitApply(e *emitter, c *histConf, st *hstate, mgr, ver string, cfgV interf
 	}
 	reapply := "-"
 	next = st
+	prevS := "-"
+	if pa, ok := st.applied[mgr]; ok {
+		pv := pa.v
+		if pa.ver != ver {
+			pv = convertUnstructured(c, pa.ver, ver, pa.v)
+		}
+		prevS = sexpValue(pv)
+	}
 	if chosen.ok() {
 		obj := chosen.obj
 		if obj == nil {
 			obj = live
 		}
-		next = &hstate{live: obj, liveVer: ver, managed: chosen.managed}
+		next = &hstate{live: obj, liveVer: ver, managed: chosen.managed, applied: st.withApplied(mgr, ver, cfgV)}
 		re := runApply(c, next, mgr, ver, cfg, false, false, -1)
 		reapply = sexpOutcome(ver, re)
 	}
-	e.line(fmt.Sprintf("(hist.apply %s %s %s %s %s %s %s %s %s %s)", quote(c.id), sexpTV(ver, live), sexpManaged(st.managed),
-		quote(mgr), quote(ver), sexpValue(cfgV), sexpOutcome(ver, noforce), sexpOutcome(ver, force), reapply, sexpOutcome(ver, rion)))
+	e.line(fmt.Sprintf("(hist.apply %s %s %s %s %s %s %s %s %s %s %s)", quote(c.id), sexpTV(ver, live), sexpManaged(st.managed),
+		quote(mgr), quote(ver), sexpValue(cfgV), sexpOutcome(ver, noforce), sexpOutcome(ver, force), reapply, sexpOutcome(ver, rion), prevS))
 	return next
 }
 
@@ -241,7 +272,7 @@ func emitUpdate(e *emitter, c *histConf, st *hstate, mgr, ver string, objV inter
 	e.line(fmt.Sprintf("(hist.update %s %s %s %s %s %s %s)", quote(c.id), sexpTV(ver, live), sexpManaged(st.managed),
 		quote(mgr), quote(ver), sexpValue(objV), sexpOutcome(ver, res)))
 	if res.ok() {
-		return &hstate{live: res.obj, liveVer: ver, managed: res.managed}
+		return &hstate{live: res.obj, liveVer: ver, managed: res.managed, applied: st.applied}
 	}
 	return st
 }
@@ -296,7 +327,7 @@ func genHist(e *emitter, tier string, prop string) {
 		}
 		opts := histOpts{plainConfigs: true}
 		switch prop {
-		case "C04", "C05", "C06":
+		case "C04", "C05", "C06", "C07":
 			opts.degenerate = e.rng.Intn(2) == 0
 			opts.plainConfigs = !opts.degenerate
 		default:
@@ -325,11 +356,16 @@ func runHistory(e *emitter, c *histConf, opts histOpts, prop string) {
 				prevCfg[mgr] = v
 			}
 			st = next
-			if prop == "C07" && e.rng.Intn(2) == 0 {
+			// (the fixed-point sentence of C07 is stated for histories of plain configurations)
+			if prop == "C07" && opts.plainConfigs && e.rng.Intn(2) == 0 {
 				emitExtract(e, c, st, mgr)
 			}
 		} else {
 			mgr := updaters[e.rng.Intn(len(updaters))]
+			if e.rng.Intn(5) == 0 {
+				// the same identity may both apply and update
+				mgr = appliers[e.rng.Intn(len(appliers))]
+			}
 			v, tv := genUpdateObject(e, c, ver, st, opts)
 			if tv == nil {
 				continue
